@@ -19,7 +19,8 @@ var (
 	HNames   = []string{"X-C0", "X-C1", "X-C2"}
 	Vals     = []string{"v0", "v1"}
 	CNames   = []string{"c0", "c1"}
-	QNames   = []string{"k0", "k1"}
+	QNames   = []string{"k0", "k1", "tags[]", "user id", "k0"}
+	QVals    = []string{"v0", "v1", "x y", "v0"} // query parameter values (filters and messages)
 	Statuses = []int{200, 404, 500}
 	Ports    = []int{80, 443, 8080}
 )
@@ -45,6 +46,35 @@ var HdrRegexes = []struct{ re, val string }{
 }
 
 func pick(rng *rand.Rand, n int) int { return rng.Intn(n) }
+
+// EncQ encodes a query-string component (decoded text s) in one of the many
+// legal ways a client may choose: characters that must be escaped are
+// percent-encoded with upper- or lower-case hex digits (a space also as '+'),
+// characters that need no escaping are sometimes percent-encoded anyway.
+func EncQ(rng *rand.Rand, s string) string {
+	const hexU, hexL = "0123456789ABCDEF", "0123456789abcdef"
+	needless := rng.Intn(4) == 0 // this component escapes needlessly here and there
+	var sb strings.Builder
+	for i := 0; i < len(s); i++ {
+		c := s[i]
+		unreserved := c >= 'a' && c <= 'z' || c >= 'A' && c <= 'Z' || c >= '0' && c <= '9' || c == '-' || c == '_' || c == '.' || c == '~'
+		switch {
+		case c == ' ' && rng.Intn(2) == 0:
+			sb.WriteByte('+')
+		case unreserved && !(needless && rng.Intn(3) == 0):
+			sb.WriteByte(c)
+		default:
+			hex := hexU
+			if rng.Intn(2) == 0 {
+				hex = hexL
+			}
+			sb.WriteByte('%')
+			sb.WriteByte(hex[c>>4])
+			sb.WriteByte(hex[c&15])
+		}
+	}
+	return sb.String()
+}
 
 // Respell returns method token m in a random case spelling: HTTP method
 // tokens are case-sensitive on the wire and pass through net/http unchanged,
@@ -210,7 +240,7 @@ func (g *gen) filterParams(n *Node) {
 	case KQS:
 		n.A["name"] = QNames[pick(r, len(QNames))]
 		if r.Intn(3) != 0 {
-			n.A["value"] = Vals[pick(r, len(Vals))]
+			n.A["value"] = QVals[pick(r, len(QVals))]
 		}
 	case KMethod:
 		n.A["method"] = Respell(r, Methods[pick(r, len(Methods))])
@@ -320,9 +350,9 @@ func Wish(rng *rand.Rand, n *Node, m *Msg) {
 	case KQS:
 		v := n.Attr("value")
 		if v == "" {
-			v = Vals[pick(rng, len(Vals))]
+			v = QVals[pick(rng, len(QVals))]
 		}
-		kv := n.Attr("name") + "=" + v
+		kv := EncQ(rng, n.Attr("name")) + "=" + EncQ(rng, v)
 		if m.Query == "" {
 			m.Query = kv
 		} else {
@@ -365,6 +395,20 @@ func Wish(rng *rand.Rand, n *Node, m *Msg) {
 	}
 }
 
+// RandQuery draws a raw query string: one of the fixed ones (url.Filter's
+// "query" part compares the raw text) or 0..3 parameters from the vocabulary,
+// each component encoded in a randomly chosen legal way.
+func RandQuery(rng *rand.Rand) string {
+	if rng.Intn(2) == 0 {
+		return Queries[pick(rng, len(Queries))]
+	}
+	var parts []string
+	for i := rng.Intn(4); i > 0; i-- {
+		parts = append(parts, EncQ(rng, QNames[pick(rng, len(QNames))])+"="+EncQ(rng, QVals[pick(rng, len(QVals))]))
+	}
+	return strings.Join(parts, "&")
+}
+
 // RandMsg draws a message from the vocabulary.
 func RandMsg(rng *rand.Rand) *Msg {
 	m := &Msg{
@@ -372,7 +416,7 @@ func RandMsg(rng *rand.Rand) *Msg {
 		Scheme: Schemes[pick(rng, len(Schemes))],
 		Host:   Hosts[pick(rng, len(Hosts))],
 		Path:   Paths[pick(rng, len(Paths))],
-		Query:  Queries[pick(rng, len(Queries))],
+		Query:  RandQuery(rng),
 		Status: Statuses[pick(rng, len(Statuses))],
 	}
 	for i := rng.Intn(3); i > 0; i-- {
